@@ -211,6 +211,12 @@ TABLE["C13"] = {
 }
 
 
+# bridge modules (lean/InjModel/Tie/<name>.lean: function translated from the source = model function)
+# whose theorems are proof obligations of a property
+TIES = {
+    "C01": ["X86"], "C13": ["X86"], "C10": ["X86"],
+}
+
 # which properties a translator item matters to (prefix of "File.name" -> property ids); used to
 # decide whose correspondence budget is enlarged when the item was not recognised in the source
 MACHINE_PROPS = ["C01", "C02", "C03", "C05", "C10", "C12", "C13", "C14", "C17"]
@@ -224,6 +230,8 @@ FALLBACK_RELEVANCE = [
     ("Layout.verifier", ["C05", "C06", "C07", "C04", "C02"]),
     ("Layout.counterResetOnInstall", ["C07", "C06"]),
     ("Layout.", ["C02", "C04", "C05", "C09", "C10", "C14", "C12", "C17"]),
+    ("Fns.GenX86.allocate", ["C11"]), ("Fns.GenX86.generate_branch", ["C01", "C13"]), ("Fns.GenX86.generate_will_return", ["C10"]),
+    ("Fns.GenX86", MACHINE_PROPS), ("Fns.GenA64", ["C15", "C13", "C11"]), ("Fns.GenA32", ["C16", "C13"]),
 ]
 
 
